@@ -290,6 +290,7 @@ func crashsim(args []string) error {
 	s := &csim{cl: cl, h: &history{}, rng: rand.New(rand.NewSource(*seed)), solo: *n == 1}
 	s.w = newWorkload(cl, s.h, *seed, *clients)
 	s.w.think = *think
+	s.w.pf = true // the HyperLogLog write-back cache is part of what a restart must not lose
 	s.h.add(trace.M{"ev": "reset", "weak": *weak && s.solo, "st": emptyStore()})
 
 	status := "ok"
